@@ -4,10 +4,12 @@ import (
 	"context"
 	"fmt"
 	"os"
+	"path/filepath"
 	"runtime"
 	"sort"
 	"strings"
 	"sync"
+	"syscall"
 	"time"
 
 	"github.com/containerd/nri/pkg/adaptation"
@@ -29,8 +31,14 @@ const (
 	setupTimeout = 30 * time.Second
 	slack        = 2 * time.Second // "plus scheduling slack" of the statement
 	settleMax    = 3 * time.Second // a dropped plugin's session must be closed well within this
-	mainTag      = "main"
-	followTag    = "follow"
+	// gapMax: the longest time between two consecutive handler entries of one request (beyond
+	// timeouts and stalls the case itself causes) up to which a run is judged. The delivery of a
+	// request to plugin i+1 lies in gap i, its answer in gap i+1: while every gap stays below
+	// 0.4 x timeout no healthy plugin's round trip can have reached the timeout. (Large requests
+	// take a few ms per plugin on an idle machine and several tens of ms when 16 shards share it.)
+	gapMax    = ReqTimeout * 2 / 5
+	mainTag   = "main"
+	followTag = "follow"
 )
 
 type logEntry struct {
@@ -63,6 +71,7 @@ type fixture struct {
 	release chan struct{}
 	relOnce sync.Once
 	w       fx.ActiveWatcher
+	ldir    string // scratch directory of the launched plugins ("" if there are none)
 }
 
 func (f *fixture) releaseAll() { f.relOnce.Do(func() { close(f.release) }) }
@@ -74,10 +83,8 @@ func (f *fixture) record(pl *plug, kind, tag string) {
 }
 
 func (f *fixture) count(idx int, tag string) int {
-	f.mu.Lock()
-	defer f.mu.Unlock()
 	n := 0
-	for _, e := range f.log {
+	for _, e := range f.history() {
 		if e.Idx == idx && e.Tag == tag {
 			n++
 		}
@@ -87,8 +94,28 @@ func (f *fixture) count(idx int, tag string) int {
 
 func (f *fixture) history() []logEntry {
 	f.mu.Lock()
-	defer f.mu.Unlock()
-	return append([]logEntry{}, f.log...)
+	out := append([]logEntry{}, f.log...)
+	f.mu.Unlock()
+	if f.ldir != "" {
+		for _, l := range readLaunchLog(filepath.Join(f.ldir, "events.log")) {
+			if l.Kind == "probe" || l.Kind == "configure" {
+				continue
+			}
+			out = append(out, logEntry{Idx: l.Idx, Kind: l.Kind, Tag: l.Tag, At: time.Duration(l.T - f.t0.UnixNano())})
+		}
+	}
+	return out
+}
+
+// launchedPids: the processes of the launched plugins, by plugin index.
+func (f *fixture) launchedPids() map[int]int {
+	out := map[int]int{}
+	if f.ldir != "" {
+		for _, l := range readLaunchLog(filepath.Join(f.ldir, "events.log")) {
+			out[l.Idx] = l.Pid
+		}
+	}
+	return out
 }
 
 func tagOf(pod *api.PodSandbox, ct *api.Container) string {
@@ -240,6 +267,48 @@ func ctrOf(id string) *api.Container {
 	return &api.Container{Id: id, PodSandboxId: "pod-" + id, Name: "ctr", Annotations: map[string]string{"orig": "v"}}
 }
 
+func sizeOf(class string) int {
+	switch class {
+	case "256k":
+		return 256 << 10
+	case "1m":
+		return 1 << 20
+	case "3m":
+		return 3 << 20
+	}
+	return 0
+}
+
+var (
+	bigMu    sync.Mutex
+	bigCache = map[int]string{}
+)
+
+func bigAnnotation(n int) string {
+	bigMu.Lock()
+	defer bigMu.Unlock()
+	if v, ok := bigCache[n]; ok {
+		return v
+	}
+	v := strings.Repeat("0123456789abcdef", n/16)
+	bigCache[n] = v
+	return v
+}
+
+// inflate makes a request large: the annotation goes on the container, or on the pod when the
+// request carries no container.
+func inflate(class string, pod *api.PodSandbox, ct *api.Container) {
+	n := sizeOf(class)
+	if n == 0 {
+		return
+	}
+	if ct != nil {
+		ct.Annotations["c07/big-request"] = bigAnnotation(n)
+		return
+	}
+	pod.Annotations = map[string]string{"c07/big-request": bigAnnotation(n)}
+}
+
 type callResult struct {
 	resp     proto.Message // nil when the adaptation returned a nil response
 	err      error
@@ -283,31 +352,39 @@ func callerContext(kind string, deadlineS int) (context.Context, context.CancelF
 	return ctx, cancel
 }
 
-func (f *fixture) issue(cx string, kind string, event int32, tag string) (proto.Message, error) {
+func (f *fixture) issue(cx, size string, kind string, event int32, tag string) (proto.Message, error) {
 	ctx, cancel := callerContext(cx, f.c.CtxDeadlineS)
 	defer cancel()
 	a := f.rt.A
 	switch kind {
 	case "create":
-		r, err := a.CreateContainer(ctx, &api.CreateContainerRequest{Pod: podOf("pod-" + tag), Container: ctrOf(tag)})
+		pod, ct := podOf("pod-"+tag), ctrOf(tag)
+		inflate(size, pod, ct)
+		r, err := a.CreateContainer(ctx, &api.CreateContainerRequest{Pod: pod, Container: ct})
 		if r == nil {
 			return nil, err
 		}
 		return r, err
 	case "update":
-		r, err := a.UpdateContainer(ctx, &api.UpdateContainerRequest{Pod: podOf("pod-" + tag), Container: ctrOf(tag), LinuxResources: requestResources()})
+		pod, ct := podOf("pod-"+tag), ctrOf(tag)
+		inflate(size, pod, ct)
+		r, err := a.UpdateContainer(ctx, &api.UpdateContainerRequest{Pod: pod, Container: ct, LinuxResources: requestResources()})
 		if r == nil {
 			return nil, err
 		}
 		return r, err
 	case "stop":
-		r, err := a.StopContainer(ctx, &api.StopContainerRequest{Pod: podOf("pod-" + tag), Container: ctrOf(tag)})
+		pod, ct := podOf("pod-"+tag), ctrOf(tag)
+		inflate(size, pod, ct)
+		r, err := a.StopContainer(ctx, &api.StopContainerRequest{Pod: pod, Container: ct})
 		if r == nil {
 			return nil, err
 		}
 		return r, err
 	case "updatepod":
-		r, err := a.UpdatePodSandbox(ctx, &api.UpdatePodSandboxRequest{Pod: podOf(tag),
+		pod := podOf(tag)
+		inflate(size, pod, nil)
+		r, err := a.UpdatePodSandbox(ctx, &api.UpdatePodSandboxRequest{Pod: pod,
 			OverheadLinuxResources: &api.LinuxResources{}, LinuxResources: &api.LinuxResources{}})
 		if r == nil {
 			return nil, err
@@ -320,6 +397,7 @@ func (f *fixture) issue(cx string, kind string, event int32, tag string) (proto.
 		} else {
 			e.Pod, e.Container = podOf("pod-"+tag), ctrOf(tag)
 		}
+		inflate(size, e.Pod, e.Container)
 		switch api.Event(event) {
 		case api.Event_RUN_POD_SANDBOX:
 			return nil, a.RunPodSandbox(ctx, e)
@@ -351,7 +429,7 @@ func allStacks() string {
 
 // call issues a request and waits for it at most bound. A call that is still running then has
 // its goroutine stacks recorded; the hanging handlers are released so that it can unwind.
-func (f *fixture) call(cx string, kind string, event int32, tag string, bound time.Duration) callResult {
+func (f *fixture) call(cx, size string, kind string, event int32, tag string, bound time.Duration) callResult {
 	type out struct {
 		m   proto.Message
 		err error
@@ -360,7 +438,7 @@ func (f *fixture) call(cx string, kind string, event int32, tag string, bound ti
 	done := make(chan out, 1)
 	start := time.Now()
 	go func() {
-		m, err := f.issue(cx, kind, event, tag)
+		m, err := f.issue(cx, size, kind, event, tag)
 		done <- out{m, err, time.Since(start)}
 	}()
 	select {
@@ -386,7 +464,7 @@ func (f *fixture) call(cx string, kind string, event int32, tag string, bound ti
 	select {
 	case o := <-done:
 		res.resp, res.err = o.m, o.err
-	case <-time.After(10 * time.Second):
+	case <-time.After(5 * time.Second):
 		res.stuck = true
 	}
 	return res
@@ -553,8 +631,21 @@ func validate(c C07Case) string {
 			return "indices must be distinct and within 00..99"
 		}
 		seen[p.Idx] = true
-		if p.Fault.Kind == "hang" || p.Fault.Kind == "garbage" {
+		if p.Fault.Kind == "hang" || p.Fault.Kind == "garbage" || (p.Fault.Kind == "cut" && p.Fault.StallMs < 0) {
 			slow++
+		}
+		if p.Launched {
+			switch k := p.Fault.Kind; {
+			case k == "none" || k == "hang" || k == "exit" || k == "error":
+			case k == "close" && p.Fault.When == "during":
+			default:
+				return "fault not available for a launched plugin"
+			}
+		} else if p.Fault.Kind == "exit" {
+			return "only a launched plugin can exit"
+		}
+		if p.Fault.StallMs < -1 || p.Fault.StallMs > 250 {
+			return "stall outside -1..250 ms"
 		}
 		if len(p.Fault.Bytes) > 1<<16 {
 			return "fault bytes too long"
@@ -568,6 +659,11 @@ func validate(c C07Case) string {
 		case "create", "update", "stop", "updatepod", "event":
 		default:
 			return "unknown request kind"
+		}
+	}
+	for _, k := range []string{c.ReqSize, c.FollowSize} {
+		if k != "" && sizeOf(k) == 0 {
+			return "unknown request size class"
 		}
 	}
 	for _, k := range []string{c.Ctx, c.FollowCtx} {
@@ -600,21 +696,44 @@ func runOnce(c C07Case) (v verdict) {
 		return
 	}
 	adaptation.SetPluginRequestTimeout(setupTimeout)
-	rt, err := fx.NewRuntime()
-	if err != nil {
-		v.overload = "cannot start adaptation: " + err.Error()
-		return
-	}
-	f := &fixture{c: c, rt: rt, dir: rt.Dir, t0: time.Now(), release: make(chan struct{})}
+	f := &fixture{c: c, t0: time.Now(), release: make(chan struct{})}
 	n := len(c.Plugins)
+	nLaunched := 0
 	for i := range c.Plugins {
 		f.plugs = append(f.plugs, &plug{spec: c.Plugins[i], name: fmt.Sprintf("plg%02d", c.Plugins[i].Idx)})
+		if c.Plugins[i].Launched {
+			nLaunched++
+		}
 	}
-	reg := append([]*plug{}, f.plugs...) // registration order = case order
+	var reg []*plug // registration order = case order (external plugins; launched ones start with the runtime)
+	for _, pl := range f.plugs {
+		if !pl.spec.Launched {
+			reg = append(reg, pl)
+		}
+	}
 	sort.Slice(f.plugs, func(i, j int) bool { return f.plugs[i].spec.Idx < f.plugs[j].spec.Idx })
 	for i, pl := range f.plugs {
 		pl.rank = i
 	}
+	var opts []adaptation.Option
+	if nLaunched > 0 {
+		f.ldir = fx.ShortDir()
+		if err := installLaunched(f.ldir, f.plugs); err != nil {
+			os.RemoveAll(f.ldir)
+			v.overload = "cannot install the launched plugins: " + err.Error()
+			return
+		}
+		opts = append(opts, adaptation.WithPluginPath(filepath.Join(f.ldir, "plugins")), adaptation.WithPluginConfigPath(filepath.Join(f.ldir, "conf")))
+	}
+	rt, err := fx.NewRuntime(opts...)
+	if err != nil {
+		if f.ldir != "" {
+			os.RemoveAll(f.ldir)
+		}
+		v.overload = "cannot start adaptation: " + err.Error()
+		return
+	}
+	f.rt, f.dir = rt, rt.Dir
 
 	stuck := false
 	defer func() {
@@ -636,7 +755,18 @@ func runOnce(c C07Case) (v verdict) {
 				pl.proxy.Shutdown()
 			}
 		}
+		pids := f.launchedPids()
 		rt.Stop()
+		if f.ldir != "" {
+			// the runtime kills what is still in its list and what it dropped; whatever is left
+			// (nothing, on a correct tree) must not outlive the case
+			for _, pid := range pids {
+				if pidAlive(pid) {
+					syscall.Kill(pid, syscall.SIGKILL)
+				}
+			}
+			os.RemoveAll(f.ldir)
+		}
 		adaptation.SetPluginRequestTimeout(ReqTimeout)
 	}()
 
@@ -669,6 +799,37 @@ func runOnce(c C07Case) (v verdict) {
 	if err := rt.WaitActive(&f.w, 20*time.Second, names...); err != nil {
 		v.overload = "plugins not active: " + err.Error()
 		return
+	}
+	if nLaunched > 0 {
+		// pre-installed plugins are started, configured and synchronized inside Start(); one
+		// that did not make it is skipped by the runtime. Make sure every one answers a probe.
+		deadline := time.Now().Add(20 * time.Second)
+		for {
+			if err := rt.Probe(); err != nil {
+				v.overload = "probe failed: " + err.Error()
+				return
+			}
+			seen := map[int]bool{}
+			for _, l := range readLaunchLog(filepath.Join(f.ldir, "events.log")) {
+				if l.Kind == "probe" {
+					seen[l.Idx] = true
+				}
+			}
+			if len(seen) == nLaunched {
+				break
+			}
+			if time.Now().After(deadline) {
+				v.overload = fmt.Sprintf("only %d of %d launched plugins are active", len(seen), nLaunched)
+				return
+			}
+			time.Sleep(2 * time.Millisecond)
+		}
+		v.classes = append(v.classes, fmt.Sprintf("launched:%d", nLaunched))
+		if nLaunched == n {
+			v.classes = append(v.classes, "launched:all")
+		} else {
+			v.classes = append(v.classes, "launched:mixed")
+		}
 	}
 	adaptation.SetPluginRequestTimeout(ReqTimeout)
 
@@ -706,7 +867,7 @@ func runOnce(c C07Case) (v verdict) {
 	if nfaults == 0 {
 		v.classes = append(v.classes, "first-fault:none")
 	}
-	v.classes = append(v.classes, "ctx:"+ctxName(c.Ctx), "follow-ctx:"+ctxName(c.FollowCtx))
+	v.classes = append(v.classes, "ctx:"+ctxName(c.Ctx), "follow-ctx:"+ctxName(c.FollowCtx), "req-size:"+sizeName(c.ReqSize), "follow-size:"+sizeName(c.FollowSize))
 	v.classes = append(v.classes, "req:"+c.Req, "follow:"+c.Follow, fmt.Sprintf("faults:%d", nfaults), fmt.Sprintf("plugins:%d", n))
 	if c.Req == "event" {
 		v.classes = append(v.classes, "event:"+eventNames[c.Event])
@@ -715,6 +876,9 @@ func runOnce(c C07Case) (v verdict) {
 	// --- faults that precede the request, and arming
 	for _, pl := range f.plugs {
 		ft := pl.spec.Fault
+		if pl.spec.Launched {
+			continue // a launched plugin carries its script itself
+		}
 		switch ft.Kind {
 		case "close":
 			if ft.When == "before" {
@@ -728,7 +892,11 @@ func runOnce(c C07Case) (v verdict) {
 			if ft.Dir == "r2p" {
 				d = R2P
 			}
-			pl.proxy.Arm(Plan{Kind: "cut", Dir: d, K: ft.K})
+			stall := 0
+			if d == R2P {
+				stall = ft.StallMs
+			}
+			pl.proxy.Arm(Plan{Kind: "cut", Dir: d, K: ft.K, StallMs: stall})
 			pl.armed = true
 		case "dying":
 			pl.proxy.Arm(Plan{Kind: "dying", Bytes: partialFrame(ft.K)})
@@ -758,7 +926,7 @@ func runOnce(c C07Case) (v verdict) {
 	// --- the request
 	bound := time.Duration(n)*ReqTimeout + slack
 	mainStart := time.Since(f.t0)
-	res := f.call(c.Ctx, c.Req, c.Event, mainTag, bound)
+	res := f.call(c.Ctx, c.ReqSize, c.Req, c.Event, mainTag, bound)
 	verifhook.Set(nil)
 	for _, pl := range f.plugs {
 		if pl.armed {
@@ -787,6 +955,7 @@ func runOnce(c C07Case) (v verdict) {
 	)
 	reached := true
 	afterVeto := ""
+	stallTotal := time.Duration(0) // time peers spent not reading before they closed
 	for _, pl := range f.plugs {
 		ft := pl.spec.Fault
 		invoked := f.count(pl.spec.Idx, mainTag)
@@ -819,6 +988,8 @@ func runOnce(c C07Case) (v verdict) {
 				vetoer = pl
 				reached = false
 			}
+		case "exit":
+			isStruck, isDuring = invoked == 1, invoked == 1
 		case "hang":
 			isStruck, isDuring = invoked == 1, invoked == 1
 			if invoked == 1 {
@@ -838,6 +1009,21 @@ func runOnce(c C07Case) (v verdict) {
 				b = band(ft.K)
 			}
 			v.classes = append(v.classes, "cut:"+ft.Dir+":"+b)
+			if pl.rep.Fired && ft.Dir == "r2p" {
+				switch {
+				case ft.StallMs > 0:
+					v.classes = append(v.classes, "cut:r2p:stalled")
+					stallTotal += time.Duration(ft.StallMs) * time.Millisecond
+				case ft.StallMs < 0:
+					// never reads again, never closes: the runtime gives up after one timeout
+					v.classes = append(v.classes, "cut:r2p:stalled-for-good")
+					stallTotal += ReqTimeout
+				}
+				// more left unread than a unix socket buffer takes: the runtime's write was cut part-way
+				if sizeOf(c.ReqSize)-ft.K > 400_000 {
+					v.classes = append(v.classes, "cut:r2p:request-write-blocked")
+				}
+			}
 		case "dying":
 			// struck from the moment the incomplete frame is on the wire; the connection is
 			// closed when the request arrives (if it gets that far)
@@ -869,11 +1055,11 @@ func runOnce(c C07Case) (v verdict) {
 	}
 
 	// --- overload: the time the request took beyond the timeouts it legitimately ran into
-	spent := res.dur
+	spent := res.dur - stallTotal
 	for i := 0; i < mayTime && spent >= ReqTimeout; i++ {
 		spent -= ReqTimeout
 	}
-	if spent > ReqTimeout/4 {
+	if spent > time.Duration(n)*gapMax {
 		v.overload = fmt.Sprintf("request took %v with %d plugin(s) expected to time out", res.dur, mayTime)
 		return
 	}
@@ -887,9 +1073,19 @@ func runOnce(c C07Case) (v verdict) {
 			at      time.Duration
 			allowed bool // this plugin may have cost one request timeout
 			must    bool // ... and certainly did (hang)
+			stall   time.Duration
 		}
 		marks := []mark{{at: mainStart}}
 		for _, pl := range f.plugs {
+			if ft := pl.spec.Fault; ft.Kind == "cut" && ft.Dir == "r2p" && pl.rep.Fired && ft.StallMs != 0 {
+				// a peer that stopped reading: never entered, its stall (one request timeout if
+				// it never closes) falls into the gap that began with the previous handler entry
+				d := time.Duration(ft.StallMs) * time.Millisecond
+				if ft.StallMs < 0 {
+					d = ReqTimeout
+				}
+				marks[len(marks)-1].stall += d
+			}
 			for _, e := range f.history() {
 				if e.Idx == pl.spec.Idx && e.Tag == mainTag {
 					k := pl.spec.Fault.Kind
@@ -899,11 +1095,11 @@ func runOnce(c C07Case) (v verdict) {
 		}
 		marks = append(marks, mark{at: mainStart + res.dur})
 		for i := 0; i+1 < len(marks); i++ {
-			g := marks[i+1].at - marks[i].at
+			g := marks[i+1].at - marks[i].at - marks[i].stall
 			if marks[i].allowed && (marks[i].must || g >= ReqTimeout) {
 				g -= ReqTimeout
 			}
-			if g > ReqTimeout/4 {
+			if g > gapMax {
 				v.overload = fmt.Sprintf("gap of %v after handler entry %d of the request", marks[i+1].at-marks[i].at, i)
 				return
 			}
@@ -1021,6 +1217,21 @@ func runOnce(c C07Case) (v verdict) {
 	// plugin's end stayed open)
 	deadline := time.Now().Add(settleMax)
 	for _, pl := range struck {
+		if pl.spec.Launched {
+			// The runtime owns this plugin's process and kills it, from a goroutine, once the
+			// plugin is dropped (typically well below 1 ms after the request). Give that a
+			// moment so that the follow-up request sees the settled state; how and when the
+			// process ends is C18's subject and is not judged here.
+			pid := f.launchedPids()[pl.spec.Idx]
+			for t := time.Now().Add(time.Second); pidAlive(pid) && time.Now().Before(t); {
+				time.Sleep(time.Millisecond)
+			}
+			if pidAlive(pid) {
+				v.classes = append(v.classes, "launched-struck-still-alive")
+			}
+			time.Sleep(20 * time.Millisecond)
+			continue
+		}
 		for {
 			who, _ := pl.proxy.Closer()
 			if who != "" && pl.p.Closed.Load() > 0 {
@@ -1039,7 +1250,7 @@ func runOnce(c C07Case) (v verdict) {
 	}
 
 	// --- clause 2 / 4b: the follow-up request
-	fres := f.call(c.FollowCtx, c.Follow, c.FollowEvent, followTag, bound)
+	fres := f.call(c.FollowCtx, c.FollowSize, c.Follow, c.FollowEvent, followTag, bound)
 	hist["follow_dur_ns"], hist["follow_err"] = fres.dur, fmt.Sprint(fres.err)
 	if fres.timedOut {
 		stuck = fres.stuck
@@ -1047,7 +1258,9 @@ func runOnce(c C07Case) (v verdict) {
 		v.timeFail = fmt.Sprintf("clause 2: the follow-up %s request did not return within %v", c.Follow, bound)
 		return
 	}
-	if fres.dur > ReqTimeout/4 {
+	// nothing fails in the follow-up request: a plugin can only have been dropped for being late
+	// if the whole request took at least one request timeout
+	if fres.dur > ReqTimeout*4/5 {
 		v.overload = fmt.Sprintf("follow-up request took %v", fres.dur)
 		return
 	}
@@ -1135,6 +1348,13 @@ func partialFrame(k int) []byte {
 	return frame(2, body)[:k]
 }
 
+func sizeName(k string) string {
+	if k == "" {
+		return "small"
+	}
+	return k
+}
+
 func ctxName(k string) string {
 	if k == "" {
 		return "background"
@@ -1152,9 +1372,17 @@ func errFormOf(ft Fault) string {
 
 func describe(ft Fault) string {
 	switch ft.Kind {
+	case "exit":
+		return fmt.Sprintf("launched plugin exits inside the handler (status %d)", ft.K)
 	case "dying":
 		return fmt.Sprintf("died on the request's arrival with %d bytes of an own frame sent", ft.K)
 	case "cut":
+		if ft.StallMs < 0 {
+			return fmt.Sprintf("stopped reading for good after %d bytes of the request", ft.K)
+		}
+		if ft.StallMs != 0 {
+			return fmt.Sprintf("stopped reading after %d bytes of the request, closed %d ms later", ft.K, ft.StallMs)
+		}
 		return fmt.Sprintf("cut %s after %d bytes", ft.Dir, ft.K)
 	case "close":
 		return "peer close " + ft.When
@@ -1187,10 +1415,19 @@ func runC07(c C07Case) ev.Outcome {
 	v := runOnce(c)
 	if v.timeFail != "" {
 		first := v
-		for attempt := 0; attempt < 3 && !v.leakedFix; attempt++ {
+		leaked := 0
+		if v.leakedFix {
+			leaked++
+		}
+		// a request that stays wedged even after every handler was released and every proxied
+		// connection closed leaves its fixture behind: confirm it once, not three times
+		for attempt := 0; attempt < 3 && leaked < 2; attempt++ {
 			v = runOnce(c)
 			if v.timeFail == "" {
 				break
+			}
+			if v.leakedFix {
+				leaked++
 			}
 		}
 		switch {
